@@ -861,8 +861,10 @@ func watchCase(c *lib.Ctx, rng *lib.RNG, sc *lib.Script, fails *[]lib.OracleFail
 	go func() { done <- w.rt.Reconcile(w.ctx) }()
 	rounds := rng.Range(3, c.Scale(10, 25))
 	for r := 0; r < rounds; r++ {
-		if rng.Chance(1, 3) {
+		if k := rng.Intn(12); k < 3 {
 			w.parkedRepeat(rng, nns)
+		} else if k < 6 {
+			w.parkedDelete(rng, nns)
 		} else {
 			for k := rng.Range(1, 4); k > 0; k-- {
 				w.mutate(rng, nns)
@@ -1185,6 +1187,205 @@ func (w *world) parkedRepeat(rng *lib.RNG, nns int) {
 	w.c.Hit("parked-repeat")
 }
 
+// ---------------------------------------------------------------- deletes while a Load is parked
+
+// userLoad calls Load(nil) the way a user would, in its own goroutine (it is going to be parked).
+func (w *world) userLoad() chan struct{} {
+	done := make(chan struct{})
+	go func() {
+		defer close(done)
+		lib.Safe(func() { _ = w.rt.Load(w.ctx, nil) })
+	}()
+	return done
+}
+
+// letReconcilerSee gives the reconciler a moment to consume the event of a spec deletion while a
+// Load is parked: with loads and event handling serialised it cannot finish (it waits for the parked
+// Load), so the wait is bounded and its outcome is not an observation.
+func (w *world) letReconcilerSee(id int, d time.Duration) {
+	w.waitTable(func(m map[int]symObs) bool { _, ok := m[id]; return !ok }, d)
+}
+
+// deleteCase (directed): Watch + Reconcile; a Load – the reload triggered by an update of the
+// value X is bound to, or a user's Load(nil) – is parked after it has read the stores, with spec X
+// in its snapshot; then X is deleted (variants: deleted and re-inserted in the same / in another
+// namespace; or the bound value is deleted), the reconciler gets a moment to handle the event, the
+// Load is released. At quiescence the table must hold nothing for a deleted spec.
+//
+//	action 0: delete X    1: delete X, re-insert X (new content) in the runtime's namespace
+//	       2: delete X, re-insert X in another namespace    3: delete the value X is bound to
+func deleteCase(c *lib.Ctx, rng *lib.RNG, sc *lib.Script, fails *[]lib.OracleFail, byUser bool, action int) string {
+	w := newWorld(c, sc, fails, 1)
+	defer w.close()
+	defer curParker.Store(nil)
+	w.op("rt 1", "ok")
+	sid, vid, vname := 1+rng.Intn(nSpecIDs), valBase+rng.Intn(nValIDs), rng.Range(1, 4)
+	e := envEnt{key: 1, byID: rng.Bool(), ref: vid}
+	if !e.byID {
+		e.ref = vname
+	}
+	d := specDoc{id: sid, ns: 1, name: rng.Intn(4), kind: rng.Intn(3), ver: 1, env: []envEnt{e}}
+	v := valDoc{id: vid, ns: 1, name: vname, ver: 1}
+	other := specDoc{id: sid%nSpecIDs + 1, ns: 1, kind: rng.Intn(2), ver: 3}
+	w.insSpec(other)
+	w.insSpec(d)
+	w.insVal(v)
+	if err := w.rt.Watch(w.ctx); err != nil {
+		w.fail("watch-error", err.Error())
+		return ""
+	}
+	w.op("watch", "ok")
+	w.load(nil)
+	done := make(chan error, 1)
+	go func() { done <- w.rt.Reconcile(w.ctx) }()
+	w.remark("the next Load parks at the verif yield point (stores read, table not yet written)")
+	p := newParker()
+	var user chan struct{}
+	if byUser {
+		w.remark("Load(nil) is called from another goroutine")
+		user = w.userLoad()
+	} else {
+		v.ver = 2
+		w.updVal(v) // the value consumer's reload of X parks after reading X
+	}
+	if !p.wait(5 * time.Second) {
+		w.fail("race-setup", "no Load reached the yield point within 5 s")
+		return ""
+	}
+	w.remark(fmt.Sprintf("that Load is parked; spec %d is in what it has read", sid))
+	switch action {
+	case 0:
+		w.delSpec(sid)
+	case 1:
+		w.delSpec(sid)
+		d.ver, d.kind = 5, rng.Intn(3)
+		w.insSpec(d)
+	case 2:
+		w.delSpec(sid)
+		d.ns, d.ver = 2, 5
+		w.insSpec(d)
+	case 3:
+		w.delVal(vid)
+	}
+	if action != 3 {
+		w.letReconcilerSee(sid, 50*time.Millisecond)
+	}
+	p.free()
+	w.remark("the parked Load is released")
+	if user != nil {
+		select {
+		case <-user:
+		case <-time.After(10 * time.Second):
+			w.fail("load-blocked-or-panicked", "the parked Load(nil) did not return 10 s after its release")
+		}
+	}
+	got, ok := w.quiesce(3 * time.Second)
+	w.op("drain", "T "+got)
+	if !ok {
+		w.fail("not-converged-after-delete-during-load", fmt.Sprintf("action %d while a Load (%s) that had read spec %d was parked; 3 s later the table is [%s], the stores demand [%s]",
+			action, map[bool]string{false: "the reload for an update of its value", true: "a user's Load(nil)"}[byUser], sid, got, tableString(w.target())))
+	}
+	w.takeNotes()
+	w.cancel()
+	select {
+	case <-done:
+	case <-time.After(10 * time.Second):
+		w.fail("reconcile-stuck", "Reconcile did not return 10 s after its context was cancelled")
+	}
+	c.Hit(fmt.Sprintf("delete-during-load-user-%v-action-%d", byUser, action))
+	if c.Evaluations < 3 {
+		c.Sample(w.trace)
+	}
+	return "d:" + strings.Join(w.trace, ";")
+}
+
+// parkedDelete (random ingredient of the Watch+Reconcile histories): park a Load that covers
+// several specs (a user's Load(nil), or the reload for an update of a bound value), then – with the
+// Load parked – delete one of the specs it has read (maybe re-insert it, here or elsewhere) or a
+// value one of them is bound to, maybe add other mutations, give the reconciler a moment, release.
+func (w *world) parkedDelete(rng *lib.RNG, nns int) {
+	target := w.target()
+	var specIDs, valIDs []int
+	boundTo := map[int][]int{} // value id -> specs bound to it
+	for id := 1; id <= nSpecIDs; id++ {
+		t, ok := target[id]
+		if !ok {
+			continue
+		}
+		specIDs = append(specIDs, id)
+		for _, b := range t.bs {
+			if len(boundTo[b.vid]) == 0 {
+				valIDs = append(valIDs, b.vid)
+			}
+			boundTo[b.vid] = append(boundTo[b.vid], id)
+		}
+	}
+	sort.Ints(valIDs)
+	if len(specIDs) == 0 {
+		w.mutate(rng, nns)
+		return
+	}
+	victims := specIDs
+	w.remark("the next Load parks at the verif yield point (stores read, table not yet written)")
+	p := newParker()
+	var user chan struct{}
+	if len(valIDs) > 0 && rng.Bool() {
+		id := lib.Pick(rng, valIDs)
+		v := w.vals[id]
+		v.ver = v.ver%9 + 1
+		w.updVal(v)
+		victims = boundTo[id]
+	} else {
+		w.remark("Load(nil) is called from another goroutine")
+		user = w.userLoad()
+	}
+	if !p.wait(300 * time.Millisecond) {
+		w.remark("no Load within 300 ms; parking cancelled")
+		w.c.Hit("parked-delete-no-load")
+		if user != nil {
+			<-user
+		}
+		return
+	}
+	w.remark("a Load is parked")
+	victim := lib.Pick(rng, victims)
+	old := w.specs[victim]
+	switch rng.Weighted([]int{4, 2, 2, 2}) {
+	case 0:
+		w.delSpec(victim)
+	case 1:
+		w.delSpec(victim)
+		d := genSpec(rng, victim, nns, w.sortedVals())
+		d.ns = old.ns
+		w.insSpec(d)
+	case 2:
+		w.delSpec(victim)
+		d := genSpec(rng, victim, nns, w.sortedVals())
+		d.ns = 2
+		w.insSpec(d)
+	case 3:
+		if bs := target[victim].bs; len(bs) > 0 {
+			w.delVal(bs[0].vid)
+		} else {
+			w.delSpec(victim)
+		}
+	}
+	for k := rng.Intn(3); k > 0; k-- {
+		w.mutate(rng, nns)
+	}
+	w.letReconcilerSee(victim, 20*time.Millisecond)
+	p.free()
+	w.remark("the parked Load is released")
+	if user != nil {
+		select {
+		case <-user:
+		case <-time.After(10 * time.Second):
+			w.fail("load-blocked-or-panicked", "the parked Load(nil) did not return 10 s after its release")
+		}
+	}
+	w.c.Hit("parked-delete")
+}
+
 // ---------------------------------------------------------------- corpus
 
 // replayCorpus runs hand-written op files: every line is executed on the implementation and
@@ -1255,13 +1456,14 @@ func replayCorpus(c *lib.Ctx, sc *lib.Script, fails *[]lib.OracleFail) {
 }
 
 func Run(c *lib.Ctx) {
-	c.Rule = "random histories (≤30 ops quick / ≤70 thorough) of insert / update / delete on the spec store (6 ids, kinds k0 k1 registered, k2 k3 unknown, 0–2 env entries by id or by name) and the value store (6 ids, 4 names) over 2–3 namespaces with Load(nil) / Load({id}) / Load({$or}) at random points, every Load observed (whole table + notifications) and compared with Uniflow.Runtime.step and with the harness's own target; plus Watch+Reconcile runs (bursts of 1–4 mutations) compared at quiescence, plus forced overlaps of a parked Load with the mutation and the other consumer (verif yield hook), plus a directed family (the same spec / the same bound value updated 2–3 times while the reconciler's Load for the first update is parked, with / without an unrelated event afterwards) and the same as a random ingredient of the Watch+Reconcile histories (1 round in 3); non-trivial = at least two Loads and a non-empty spec store, distinct by full trace"
+	c.Rule = "random histories (≤30 ops quick / ≤70 thorough) of insert / update / delete on the spec store (6 ids, kinds k0 k1 registered, k2 k3 unknown, 0–2 env entries by id or by name) and the value store (6 ids, 4 names) over 2–3 namespaces with Load(nil) / Load({id}) / Load({$or}) at random points, every Load observed (whole table + notifications) and compared with Uniflow.Runtime.step and with the harness's own target; plus Watch+Reconcile runs (bursts of 1–4 mutations) compared at quiescence, plus forced overlaps of a parked Load with the mutation and the other consumer (verif yield hook), plus a directed family (the same spec / the same bound value updated 2–3 times while the reconciler's Load for the first update is parked, with / without an unrelated event afterwards) and the same as a random ingredient of the Watch+Reconcile histories (1 round in 4), plus a second directed family (a spec that a parked Load – the reload for its value's update, or a user's Load(nil) – has read is deleted / deleted and re-inserted here or in another namespace / loses its value, the reconciler gets a moment, the Load is released) and its random ingredient (1 round in 4); non-trivial = at least two Loads and a non-empty spec store, distinct by full trace"
 	c.Assumptions = []string{
 		"each store mutation, each Load and each consumption of one stream event is one atomic step of the model (store mutex; loadMu of the fixed runtime)",
 		"a spec and a value keep their namespace for life (a move is delete + insert); env entries reference a value by id or by name (anonymous entries and Config.Environment are C18's subject and are not generated)",
 		"specs have no ports, so a symbol is activated iff it has a node (bound and of a registered kind); the symbol table's own behaviour is C06–C08's subject",
 		"a spec whose Bind fails may be left partially rewritten by Go (map order); it is observed only as `unbound`",
 		"the theorems C09.converges* take the two store streams as reliable FIFO queues (C13's events_exact); the directed repeat family and C09.lossy_queue_breaks_convergence show what happens otherwise",
+		"C09.converges_concurrent has at most one Load or event handling in flight (loadMu around every event kind's handling); the delete-during-load family and C09.unlocked_delete_breaks_convergence show what happens otherwise",
 		"Watch+Reconcile runs are compared at quiescence only: the harness waits (≤10 s) until the table equals the target computed from its mirror of the stores",
 	}
 	c.Trusted = []string{"the harness's mirror of the two stores (checked against every mutation's outcome)", "pkg/runtime/verif_on.go (read-only table accessor)"}
@@ -1277,6 +1479,15 @@ func Run(c *lib.Ctx) {
 					sc.Begin()
 					c.Count(repeatCase(c, rng.Fork(), sc, &fails, onValue, updates, trailing))
 				}
+			}
+		}
+	}
+	// directed family: a spec (or its value) deleted while a Load that has read it is parked
+	for rep := c.Scale(2, 10); rep > 0; rep-- {
+		for _, byUser := range []bool{false, true} {
+			for action := 0; action < 4; action++ {
+				sc.Begin()
+				c.Count(deleteCase(c, rng.Fork(), sc, &fails, byUser, action))
 			}
 		}
 	}
